@@ -8,12 +8,15 @@ CFG = {'streams': [{'name': 'C15',
                             'implementation (codes 1-7)'}],
  'rule': 'generated programs (as C01) x sources x both modes x {no debug attributes, debug attributes dbg_loc/dbg_var/dbg_match}; non-trivial = at '
          'least two edge statements and a successful debug run',
- 'explanation': 'Theorems: debug_neutral_strict — erasing the configured names from the strict debug run gives exactly the plain run (graph, '
-                'error, panic, polls), with stdlib_ignores_attributes discharging its hypothesis on the function library; a `node` statement records exactly variable text, 1-based line/column and the matched node; location text format; lazy '
-                "edge creation gives a NEW edge the statement's location and leaves an existing edge alone. Direct stream: erase-and-compare on the "
-                'implementation in both modes. Correspondence: model with the debug configuration vs implementation (exact attribute values).',
- 'partial': ['debug_neutral is proved for the strict interpreter (debug_neutral_strict, Proofs/DebugSim.v: two-run simulation, any subset of '
-             'the three names); for the lazy interpreter it is not proved and is explored by the direct stream only'],
+ 'explanation': 'Theorems: debug_neutral_strict and debug_neutral_lazy — in both interpreters, erasing the configured names from the debug '
+                'run gives exactly the plain run (graph, error with contexts, panic, polls), for any subset of the three names (hypotheses: pairwise different names that no attribute statement or shorthand of the file uses); the lazy proof '
+                '(Proofs/DebugSimLazy.v) is a two-run simulation through the execution phase and the evaluation phase (pending edge statements '
+                'related by erasure, thunk store / scoped cells / prev_element_debug_info equal); stdlib_ignores_attributes discharges the '
+                'hypothesis on the function library; a `node` statement records exactly variable text, 1-based line/column and the matched '
+                "node; location text format; lazy edge creation gives a NEW edge the statement's location and leaves an existing edge alone. "
+                'Direct stream: erase-and-compare on the implementation in both modes. Correspondence: model with the debug configuration vs '
+                'implementation (exact attribute values).',
+ 'partial': [],
  'assumptions': ['tree-sitter queries are an external: raw matches are recorded by calling QueryCursor::matches directly on the stanza queries and '
                  'on the merged file query',
                  'regex crate: modelled by Model/Regex.v on the generated sub-language (validated by stream C10rx); stdlib functions: Model/Stdlib.v '
